@@ -872,6 +872,15 @@ func (g *gen) evalCall(env *specEnv, e *SExpr) (Val, error) {
 			t = app("i_val", t)
 		}
 		return boolVal(app("private", t)), nil
+	case "tnodeOrSentinel":
+		// a syntax-node pointer handed between functions of the checkers: a tree node, or the all-zero node astcast.NilX
+		g.declTnode()
+		if args[0].Sort == "Int" && args[0].Typ != nil {
+			if sent := g.sentinelFor(args[0].Typ); sent != "" {
+				return boolVal(or(app("tnode", args[0].T), eq(args[0].T, sent))), nil
+			}
+		}
+		return boolVal(app("tnode", args[0].T)), nil
 	case "tnode":
 		// tnode(x): x is a node of a parsed and type-checked syntax tree (theory ast-valid)
 		g.declTnode()
